@@ -55,8 +55,8 @@ TABLE = {
     "two_npu_islands": (3, MIXED), "concat_slices": (3, ROTATE), "shared_weights": (2, ROTATE), "big_fm_u65": (3, FAST),
     "avgpool_chain": (2, ROTATE), "minmax_lrelu": (2, ROTATE), "reshape_fork": (4, MIXED), "widen_ew": (3, ROTATE),
     "lut_mixed": (18, LUT), "shape_out": (42, MIXED), "transpose_perm": (24, ROTATE), "ew_fork": (20, MIXED),
-    "fc1_two_core": (12, TWO_CORE),
-    "multi_out_cpu": (24, MIXED),
+    "fc1_two_core": (12, TWO_CORE), "near_scale": (15, ROTATE),
+    "multi_out_cpu": (24, MIXED), "slice_masks": (40, MIXED),
 }
 DEFAULT = (3, ROTATE)
 
